@@ -9,21 +9,20 @@ import (
 )
 
 // tryReplay searches a model of the failed obligation and, where a replay template exists for the
-// function, runs it against the real code. It returns true when the failure was reproduced.
-func tryReplay(P *Program, id, fn string, o Oblig, query, model string, solver *Solver, sb *strings.Builder) bool {
+// function, runs it against the real code. It returns the replay file when the failure was reproduced.
+func tryReplay(P *Program, id, fn string, o Oblig, query string, terms map[string]string, solver *Solver, sb *strings.Builder) (bool, string) {
 	ms := NewSolver(solver.cacheDir, 10*time.Second)
 	defer ms.Close()
 	m, how := findModel(query, ms)
 	if m == "" {
 		fmt.Fprintf(sb, "counterexample: none returned by the solvers (quantified context: unknown/timeout)\n")
-		return false
+	} else {
+		fmt.Fprintf(sb, "counterexample candidate from %s:\n", how)
+		for _, l := range modelInputs(m) {
+			fmt.Fprintf(sb, "  %s\n", l)
+		}
 	}
-	fmt.Fprintf(sb, "counterexample candidate from %s:\n", how)
-	vals := modelInputs(m)
-	for _, l := range vals {
-		fmt.Fprintf(sb, "  %s\n", l)
-	}
-	return replayOnRealCode(P, id, fn, o, m, sb)
+	return replayOnRealCode(P, id, fn, o, query, terms, sb)
 }
 
 // modelInputs extracts the values of parameters and call results from a z3 model.
